@@ -6,7 +6,8 @@
                                    TimingMap.beats(Snapper()))
    None = a raised exception.  Not modelled (None): non-empty #STOPS.
    Floats: every number is its exact rational; float printing is left abstract (tokens TNum/TRnd2).
-   [variant] selects between the pinned behaviour (all false) and the minimal repairs proposed in docs/C02.md, docs/C03.md. *)
+   THE model is the [current] variant (all flags true) = the code in /repo after the repairs 16f3fe3, d872b70, d64b5ab.
+   The three OLD_* variants reproduce one former defect each and exist only for the _refuted witnesses in Proofs/. *)
 From Coq Require Import String ZArith QArith Qround Qabs List Bool.
 From RV Require Import Base.PyNum Timing.Snapper Timing.Snap Timing.TimingMap Timing.Reseat Formats.SMText.
 Import ListNotations.
@@ -39,8 +40,11 @@ Record smconf := mkConf {
   k_tbl : list Q }.
 
 Record variant := mkVar { v_sel : bool; v_pad : bool; v_stops : bool }.
-Definition pinned : variant := mkVar false false false.
-Definition repaired : variant := mkVar true true true.
+Definition current : variant := mkVar true true true.
+(* OLD behaviours, one former defect each (v_sel / v_pad / v_stops = false) *)
+Definition OLD_selectable_bare_no : variant := mkVar false true true.   (* before 16f3fe3: selectable=False written as "NO;" *)
+Definition OLD_pad_0000 : variant := mkVar true false true.             (* before d872b70: empty measures padded with "0000" *)
+Definition OLD_stops_none : variant := mkVar true true false.           (* before d64b5ab: no #STOPS tag -> stops=None -> AttributeError *)
 
 Definition text_tags : list text :=
   map tx ["#TITLE"; "#SUBTITLE"; "#ARTIST"; "#TITLETRANSLIT"; "#SUBTITLETRANSLIT"; "#ARTISTTRANSLIT"; "#GENRE";
